@@ -839,10 +839,12 @@ class Pile(Widget, WidgetContainerMixin, WidgetContainerListContentsMixin):
         focus: bool = False,
     ) -> SolidCanvas | CompositeCanvas:
         _widths, heights, size_args = self.get_rows_sizes(size, focus)
-        # a PACK item that reports no rows is not rendered, but it still took part in the layout (its own
-        # row count decided that): the canvas then depends on every item widget, not only the rendered ones
+        # an item whose height comes from its own row count (PACK; as a flow or fixed widget also WEIGHT) and
+        # that reports no rows is not rendered, but it still took part in the layout: the canvas then depends
+        # on every item widget, not only the rendered ones
+        self_sized = (WHSettings.PACK,) if len(size) == 2 else (WHSettings.PACK, WHSettings.WEIGHT)
         hidden_pack = any(
-            height <= 0 and options[0] == WHSettings.PACK for height, (_, options) in zip(heights, self.contents)
+            height <= 0 and options[0] in self_sized for height, (_, options) in zip(heights, self.contents)
         )
 
         combinelist = []
